@@ -7,6 +7,7 @@ import (
 
 func init() {
 	vRegister("H_C01_Step", H_C01_Step)
+	vRegister("H_C01_WirePushPull", H_C01_WirePushPull)
 }
 
 type vClaim struct {
@@ -163,4 +164,51 @@ func H_C01_Step() {
 	}
 	vAssert(len(m.nodes) == len(m.nodeMap) && int(m.numNodes.Load()) == len(m.nodes), "c01.inv.table-consistent")
 	_ = net.IP{}
+}
+
+// C01 with the real push/pull wire as the carrier (readRemoteState's port normalisation included): an alive
+// entry about a known member that is no newer than the record, coming from a sender that does not know ports
+// (port 0) or read by an observer speaking protocol version 1 (ports ignored), names the member's own address;
+// it must change nothing whatever state the record is in, however old it is.
+func H_C01_WirePushPull() {
+	cb := vBaseConfig()
+	pv1 := vPick(2) == 1
+	if pv1 {
+		cb.ProtocolVersion = 1
+	}
+	cb.DeadNodeReclaimTime = []time.Duration{0, time.Minute}[vPick(2)]
+	fb := vNewML(cb)
+	fb.vAddSelf(5, nil)
+	inc := vU32()
+	vAssume(inc >= 1 && inc < 0xFFFFFFF0)
+	rec := fb.vAddConcreteAlive(vPeerA, 2) // 10.0.0.2:7946, last change an hour ago
+	rec.Incarnation = inc
+	rec.State = []NodeStateType{StateAlive, StateSuspect, StateDead, StateLeft}[vPick(4)]
+	rec.Meta = vBytes(1)
+
+	// the sender's view of the same member: same address, older or equal incarnation, other metadata
+	ca := vBaseConfig()
+	ca.Name = vPeerB
+	fa := vNewML(ca)
+	claim := vU32()
+	vAssume(claim <= inc)
+	port := uint16(0)
+	if pv1 && vPick(2) == 1 {
+		port = 9999
+	}
+	na := &nodeState{Node: Node{Name: vPeerA, Addr: []byte{10, 0, 0, 2}, Port: port, Meta: vBytes(1), PMin: 1, PMax: 5, PCur: 2}, Incarnation: claim, State: StateAlive}
+	fa.m.nodes = append(fa.m.nodes, na)
+	fa.m.nodeMap[vPeerA] = na
+	wire := &vConn{}
+	vAssert(fa.m.sendLocalState(wire, false, "") == nil, "c01.wire.send-ok")
+
+	pre := fb.vSnapshot(vPeerA)
+	conn := &vConn{in: wire.out}
+	fb.m.handleConn(conn)
+	vAssert(len(conn.out) > 0, "c01.wire.exchange-completed")
+	vAssert(fb.vSameRecord(vPeerA, pre), "c01.wire.older.record-unchanged")
+	vAssert(len(fb.ev.log) == 0, "c01.wire.older.no-event")
+	vAssert(fb.m.broadcasts.NumQueued() == 0, "c01.wire.older.no-regossip")
+	vAssert(fb.conflict.n == 0, "c01.wire.same-address-no-conflict")
+	vCover("c01.wire")
 }
